@@ -77,6 +77,24 @@ def get_decimal_config() -> Tuple[int, int]:
     return (DECIMAL_WIDTH, DECIMAL_SCALE)
 
 
+def _read_int_setting(env_var: str, default: int, min_value: int, max_value: int) -> int:
+    """Read an integer setting; a non-integer value is a configuration error, not a ValueError."""
+    raw = os.getenv(env_var)
+    if raw is None:
+        return default
+    try:
+        return int(raw)
+    except ValueError:
+        raise RunTimeError(
+            code="0-4-1-1",
+            env_var=env_var,
+            value=raw,
+            min_value=min_value,
+            max_value=max_value,
+            disable_value=DISABLE_VALUE,
+        ) from None
+
+
 def set_decimal_config() -> None:
     """
     Set decimal precision and scale at runtime.
@@ -88,8 +106,12 @@ def set_decimal_config() -> None:
     global DECIMAL_WIDTH, DECIMAL_SCALE
     # Read into locals and validate before touching the module globals: a rejected setting
     # must not leak into later runs, and an unset variable means the documented default.
-    width = int(os.getenv(DECIMAL_WIDTH_ENV_VAR, DEFAULT_DECIMAL_WIDTH))
-    scale = int(os.getenv(DECIMAL_SCALE_ENV_VAR, DEFAULT_DECIMAL_SCALE))
+    width = _read_int_setting(
+        DECIMAL_WIDTH_ENV_VAR, DEFAULT_DECIMAL_WIDTH, MIN_DECIMAL_WIDTH, MAX_DECIMAL_WIDTH
+    )
+    scale = _read_int_setting(
+        DECIMAL_SCALE_ENV_VAR, DEFAULT_DECIMAL_SCALE, MIN_DECIMAL_SCALE, MAX_DECIMAL_SCALE
+    )
 
     if width == DISABLE_VALUE:
         width = MAX_DECIMAL_WIDTH
@@ -112,6 +134,17 @@ def set_decimal_config() -> None:
             env_var=DECIMAL_WIDTH_ENV_VAR,
             value=width,
             min_value=MIN_DECIMAL_WIDTH,
+            max_value=MAX_DECIMAL_WIDTH,
+            disable_value=DISABLE_VALUE,
+        )
+
+    if width < scale:
+        # DECIMAL(width, scale) needs width >= scale
+        raise RunTimeError(
+            code="0-4-1-1",
+            env_var=DECIMAL_WIDTH_ENV_VAR,
+            value=width,
+            min_value=scale,
             max_value=MAX_DECIMAL_WIDTH,
             disable_value=DISABLE_VALUE,
         )
